@@ -742,6 +742,14 @@ class ConfigDict(Config):
         """Get all sections."""
         return iter(self._values.keys())
 
+    def has_section(self, name: Section) -> bool:
+        """Check if a specified section exists (section names ignore case, as for get)."""
+        return name in self._values
+
+    def __contains__(self, name: object) -> bool:
+        """Whether a section exists."""
+        return name in self._values
+
 
 def _format_string(value: bytes) -> bytes:
     # Like git's write_pair(): quote when leading/trailing blanks would be
@@ -1704,7 +1712,8 @@ def parse_submodules(config: ConfigFile) -> Iterator[tuple[bytes, bytes, bytes]]
 def iter_instead_of(config: Config, push: bool = False) -> Iterable[tuple[str, str]]:
     """Iterate over insteadOf / pushInsteadOf values."""
     for section in config.sections():
-        if section[0] != b"url":
+        # section names ignore case: [Url "..."] is a url section too
+        if section[0].lower() != b"url" or len(section) < 2:
             continue
         replacement = section[1]
         try:
